@@ -10,7 +10,7 @@ import DclabModel.DriveUtil
     copy                      `rtdc_copy`                         export <bits>   filtered export
     stored                    → `<min> <max> <mean>` as stored (`-` = absent)
     report                    → `<min> <max> <mean> ## <true min> <true max> <true mean> ## <mean under the old rule> ## <n>`
-    child <v> …  | mask <bits> | rejuv | query      hierarchy child of a parent with these values
+    child <v> …  | cdata <v> … (data change) | mask <bits> | rejuv | query      hierarchy child of a parent with these values
   values: `nan`, `+inf`, `-inf`, `p/q`, `p`
 -/
 open DclabModel.Summary DclabModel.DriveUtil
@@ -75,6 +75,9 @@ def handle (d : D) (line : String) : D × String :=
   | "child" :: vs => match vs.mapM parseVal with
     | some l => ({ d with ch := { parent := l, mask := l.map (fun _ => true), arr := none,
                                   cache := none } }, "ok")
+    | none => (d, "bad-op")
+  | "cdata" :: vs => match vs.mapM parseVal with
+    | some l => ({ d with ch := (childStep d.ch (.setData l)).1 }, "ok")
     | none => (d, "bad-op")
   | ["mask", bits] => ({ d with ch := (childStep d.ch (.setMask (parseBools bits))).1 }, "ok")
   | ["rejuv"] => ({ d with ch := (childStep d.ch .rejuvenate).1 }, "ok")
